@@ -115,7 +115,7 @@ func writeEvidence(P, tier string, seed int, eng *Engine, cone []string, results
 		"trusted_base":             tb,
 		"samples":                  samples,
 		"functions_under_contract": funcs,
-		"per_obligation":           obls,
+		"per_clause":               groupObls(obls),
 		"solver_time_s":            solverTime,
 		"back_ends":                "z3-new 5.1.0, z3 4.8.12, cvc5 1.0 raced per obligation; first `unsat` discharges (thorough: two solvers must agree where two finish)",
 		"contract_files":           eng.contractFiles,
@@ -126,6 +126,9 @@ func writeEvidence(P, tier string, seed int, eng *Engine, cone []string, results
 	}
 	if len(pc.Bounded) > 0 {
 		cov["bounded_clauses"] = pc.Bounded
+	}
+	if len(evScans) > 0 {
+		cov["mechanical_scans"] = evScans
 	}
 	if len(evStandins) > 0 {
 		cov["bounded_standins"] = evStandins
@@ -150,6 +153,51 @@ func writeEvidence(P, tier string, seed int, eng *Engine, cone []string, results
 	os.MkdirAll(filepath.Join(outRoot(), "evidence"), 0o755)
 	data, _ := json.MarshalIndent(ev, "", " ")
 	os.WriteFile(filepath.Join(outRoot(), "evidence", P+".json"), data, 0o644)
+}
+
+type clauseEvidence struct {
+	Clause      string             `json:"clause_or_site"`
+	Kind        string             `json:"kind"`
+	Func        string             `json:"function"`
+	Tags        []string           `json:"tags,omitempty"`
+	Text        string             `json:"text,omitempty"`
+	Obligations int                `json:"obligations"`
+	Discharged  int                `json:"discharged"`
+	Solvers     map[string]int     `json:"answered_first_by"`
+	MaxTimeS    float64            `json:"max_time_s"`
+	SumTimeS    float64            `json:"sum_time_s"`
+	NotOK       []string           `json:"not_discharged,omitempty"`
+}
+
+// groupObls: one entry per contract clause / site (an obligation name is clause[@pathN][/conjunct][#site-ordinal])
+func groupObls(obls []oblEvidence) []*clauseEvidence {
+	idx := map[string]*clauseEvidence{}
+	var order []*clauseEvidence
+	for _, o := range obls {
+		stem := o.Name
+		if i := strings.IndexAny(stem, "@/"); i >= 0 {
+			stem = stem[:i]
+		}
+		key := o.Func + "|" + stem + "|" + o.Kind
+		c := idx[key]
+		if c == nil {
+			c = &clauseEvidence{Clause: stem, Kind: o.Kind, Func: o.Func, Tags: o.Tags, Text: o.Clause, Solvers: map[string]int{}}
+			idx[key] = c
+			order = append(order, c)
+		}
+		c.Obligations++
+		if o.Status == "discharged" || o.Status == "cover-ok" {
+			c.Discharged++
+		} else {
+			c.NotOK = append(c.NotOK, o.Name+": "+o.Status)
+		}
+		c.Solvers[o.Solver]++
+		c.SumTimeS += o.TimeS
+		if o.TimeS > c.MaxTimeS {
+			c.MaxTimeS = o.TimeS
+		}
+	}
+	return order
 }
 
 func truncate(s string, n int) string {
@@ -188,6 +236,9 @@ func writeReplay(P string, r *SolveResult, eng *Engine) string {
 		Status: r.Status, Solver: r.Solver, SolverRaw: truncate(r.Output, 20000), Model: r.Model}
 	if r.Status == "failed-sat" && r.Model != nil {
 		tryReplay(&rf, r, eng)
+		if !rf.Replayed && rf.ReplayTest == "" {
+			tryReplayMethod(&rf, r, eng)
+		}
 	} else {
 		rf.ReplayNote = "no model: the obligation, discharged on the unchanged tree, is no longer discharged (solver answers: " + r.Solver + ")"
 	}
